@@ -213,7 +213,7 @@ func runC19(x *core.Ctx) {
 	// (2) every state of the setter search
 	runE2Setters(x, c19Visit)
 	// (3) every packet accepted from the raw input families
-	maxBody := 5
+	maxBody := 4
 	if x.Thorough() {
 		maxBody = 6
 	}
